@@ -302,9 +302,17 @@ def error(ctx):
         for arg, ref, nm in ((k["args"][0], ref_x, "x = unsystematic error sqrt(mse - bias^2)"), (k["args"][1], ref_y, "y = systematic error mean(obs - fcst)")):
             hit = _column_elem(arg)
             if hit is None:
-                raise symeval.Undecided("Error: the drawn series is not column f of a matrix stored at (i, f)")
+                # one array per input, stored at the slice index
+                idx1 = None
+                for a_ in q.atoms(arg, "setitem") + ([arg.as_atom("setitem")] if arg.as_atom("setitem") is not None else []):
+                    if arrays.elem_at(arg, a_.args[1]) is not None:
+                        idx1 = a_.args[1]
+                v1 = arrays.final_elem(arg, idx1) if idx1 is not None else None
+                if v1 is None:
+                    raise symeval.Undecided("Error: the drawn series is neither column f of a matrix stored at (i, f) nor an array stored at the slice index")
+                hit = (v1, idx1, f_idx)
             v, i_idx, col = hit
-            ok = f_idx is None or _k(col) == _k(f_idx)
+            ok = f_idx is None or col is None or _k(col) == _k(f_idx)
             _ob(ctx, c, k, ok, "error decomposition: the series of input f is column f", "error decomposition: column %s drawn with the label of input %s" % (_k(col), _k(f_idx)))
             v2, seen = arrays.abstract(v, [("O", lambda a: _scores_elem(a, 0) is not None), ("F", lambda a: _scores_elem(a, 1) is not None)])
             for n_, ats in seen.items():
